@@ -84,7 +84,7 @@ class ProgBase(nn.Module):
       elif k == 'child':
         cls = get_class(s[2])
         if len(s) == 5 and LIFT[0]:
-          cls = lifted_class(s[2], s[4])
+          cls = lifted_class(s[2], s[4], self.is_initializing())
         insts[s[1]] = cls(self.prog_id, s[2], self.post, self.sel, name=s[3])
       elif k == 'ctl':
         _, xv, kind, branches, arg = s
@@ -130,12 +130,14 @@ class ProgBase(nn.Module):
 LIFTED = {}
 
 
-def lifted_class(cid, t):
-  if (cid, t) not in LIFTED:
+def lifted_class(cid, t, initializing=False):
+  # nn.map_variables is used the documented way: init=self.is_initializing() (its init pass runs the module once more)
+  key = (cid, t, initializing and t == 'mapvars')
+  if key not in LIFTED:
     base = get_class(cid)
-    LIFTED[(cid, t)] = {'jit': lambda: nn.jit(base), 'remat': lambda: nn.remat(base),
-                        'mapvars': lambda: nn.map_variables(base, 'params', mutable=True)}[t]()
-  return LIFTED[(cid, t)]
+    LIFTED[key] = {'jit': lambda: nn.jit(base), 'remat': lambda: nn.remat(base),
+                   'mapvars': lambda: nn.map_variables(base, 'params', mutable=True, init=key[2])}[t]()
+  return LIFTED[key]
 
 
 def get_class(cid):
